@@ -282,6 +282,15 @@ func (h *H) planGSVD(add addFn) {
 				add("gsvd", s[0]*s[1]*s[2], func() { h.checkGSVD(i, s[0], s[1], s[2], z) })
 			}
 		}
+		if rep == 0 {
+			// pinned small common-zero-column cases (data independent of the
+			// seed and of the tier): they expose every clause through which
+			// the open Dggsvp3 pivoting finding shows (rank and reconstruction).
+			for j := 0; j < 24; j++ {
+				i, sh := 1000+j, [][3]int{{2, 3, 4}, {3, 2, 4}, {2, 2, 3}}[j%3]
+				add("gsvd", 100, func() { h.checkGSVD(i, sh[0], sh[1], sh[2], true) })
+			}
+		}
 		for _, c := range []int{1, 2, 3, 5, 8, 17} {
 			for _, nm := range []int{2, 3, 4} {
 				idx++
